@@ -93,6 +93,11 @@ fn one(id: u64, v: &Value, bash: &PathBuf) -> Value {
         if let Some(b) = tri("strip") { config.strip_ansi_escaping = Some(b); }
         let mut expr = cmds.join("; ");
         if t["tail"] == json!("backslash") { expr.push_str(" \\"); }
+        let hang = t["tail"].as_str().unwrap_or("").to_string();
+        if hang.starts_with("hang") {
+            expr.push_str("; sleep 3");
+            if hang == "hang_test" { config.timeout = Some(Duration::from_secs(1)); }
+        }
         if t["tail"] == json!("heredoc") {
             // the payload is the text of a here-document; the expression is what the real parser reads from the document
             let body: String = strs(&t["payload"]).iter().map(|x| match x.as_str() { "GT" => ">", "SP" => " ", "a" => "a", "LF" => "\n", o => tool_error(&format!("heredoc token {o}")) }).collect();
@@ -114,14 +119,21 @@ fn one(id: u64, v: &Value, bash: &PathBuf) -> Value {
         tcs.push(TestCase { title: format!("t{}", k + 1), shell_expression: expr, expectations: vec![], exit_code: None, line_number: k + 1, config });
     }
     let refs: Vec<&TestCase> = tcs.iter().collect();
+    let mut doc_config = DocumentConfig::default_markdown();
+    if v["tests"].as_array().unwrap().iter().any(|t| t["tail"] == json!("hang_doc")) { doc_config.total_timeout = Some(Duration::from_secs(1)); }
     let ctx = ContextBuilder::default().work_directory(work).temp_directory(tmp).file(PathBuf::from("doc.md"))
-        .config(DocumentConfig::default_markdown()).build().unwrap_or_else(|e| tool_error(&format!("context: {e}")));
+        .config(doc_config).build().unwrap_or_else(|e| tool_error(&format!("context: {e}")));
     let result = guarded(|| {
         if exec == "md" { StatefulExecutor::new(BashRunner::stateful_generator(bash)).execute_all(&refs, &ctx) }
         else { BashScriptExecutor::new(bash).execute_all(&refs, &ctx) }
     });
     let obs = match result {
         Err(m) => json!({"result": "panic", "detail": m, "out": [], "err": [], "code": []}),
+        // a time limit: the outputs recorded until then come with the error
+        Ok(Err(scrut::executors::error::ExecutionError::Timeout(_, outputs))) => json!({"result": "ok", "detail": "timeout",
+            "out": outputs.iter().map(|o| tokens_of(&o.stdout.to_bytes())).collect::<Vec<_>>(),
+            "err": outputs.iter().map(|o| tokens_of(&o.stderr.to_bytes())).collect::<Vec<_>>(),
+            "code": outputs.iter().map(|o| match o.exit_code { ExitStatus::Code(c) => c as i64, ExitStatus::Timeout(_) => -2, _ => -1 }).collect::<Vec<_>>()}),
         Ok(Err(e)) => json!({"result": "err", "detail": format!("{e}").chars().take(200).collect::<String>(), "out": [], "err": [], "code": []}),
         Ok(Ok(outputs)) => json!({"result": "ok", "detail": "",
             "out": outputs.iter().map(|o| tokens_of(&o.stdout.to_bytes())).collect::<Vec<_>>(),
